@@ -167,8 +167,8 @@ func vCrashAt(k int, short int, after func()) {} // engine only
 func vCrashed() bool                          { return false }
 func vSetCanClone(on bool)                    {}
 func vFSList(dir string) []string {
-	if dir == "/" {
-		return nil // natively only directories of the harness are listed, not the machine
+	if dir == "/" && os.Getenv("VERIF_JAIL") == "" {
+		return nil // outside the replay jail only directories of the harness are listed, not the machine
 	}
 	var out []string
 	filepath.Walk(dir, func(p string, info os.FileInfo, err error) error {
